@@ -965,6 +965,10 @@ pub fn evaluate_crash(prop: &str, case: &Case, fault: &Fault) -> Vec<Failure> {
         }
     }
     let _ = mix(&[0]);
+    if prop == "C07" {
+        // torn-tail variant of the alignment grid: the usability clauses of the crash oracle, re-filed
+        return out.into_iter().filter(|f| f.prop == "C02").map(|f| Failure { prop: "C07", clause: format!("torn-tail-{}", f.clause), op_index: f.op_index, detail: f.detail }).collect();
+    }
     out.into_iter().filter(|f| f.prop == prop).collect()
 }
 
